@@ -204,6 +204,31 @@ pub fn conc_campaigns(property: &str) -> Vec<ConcCampaign> {
 fn run_conc_check(context: &CheckContext, mut outcome: CheckOutcome) -> CheckOutcome {
     use crate::conc::*;
     let thorough = context.tier == "thorough";
+    if matches!(context.property.as_str(), "C10" | "C05" | "C03") {
+        // directed regression scenario of the repaired finding F11 (sweep of an old incarnation vs delete + re-put)
+        let started = std::time::Instant::now();
+        let delays: Vec<u64> = if thorough { vec![1, 2, 5, 10, 20, 40, 80] } else { vec![2, 10, 30] };
+        let repeats = if thorough { 10 } else { 4 };
+        let mut report = CampaignReport { name: "directed-sweep-vs-reput".to_string(), engine: "CONC-DIRECTED".to_string(),
+            rule: "directed schedule (through the schedule point between the sweeper's weight release and its store removal): TTL key expires, sweeper delayed d ms after releasing the weight, client removes the TTL in place, deletes the key and puts it again; the new incarnation must survive and be the only charge; d from a fixed list, each repeated; every execution is non-trivial (counted per (d, repetition))".to_string(), ..CampaignReport::default() };
+        'outer: for delay in &delays {
+            for _ in 0..repeats {
+                report.evaluations += 1;
+                report.distinct_nontrivial += 1;
+                if let Some(failure) = sweep_vs_reput_scenario(*delay) {
+                    if failure.concerns(&context.property) {
+                        let replay = Replay { property: context.property.clone(), engine: "DIRECTED-F11".to_string(), campaign: "directed-sweep-vs-reput".to_string(), seed: context.seed, case: json!({"delay_ms": delay}), policy: json!({}), failure: Some(failure.clone()), note: "directed scenario; replay re-runs it 20 times".to_string() };
+                        outcome.violations.push(Violation { replay_path: write_replay(&replay), failure });
+                        break 'outer;
+                    }
+                }
+            }
+        }
+        report.samples.push(json!({"delays_ms": delays, "repeats": repeats}));
+        report.wall_s = started.elapsed().as_secs_f64();
+        outcome.reports.push(report);
+        if !outcome.violations.is_empty() { return outcome; }
+    }
     outcome.assumptions.extend(vec![
         "CONC: programs are generated deterministically from the seed, but their execution depends on OS scheduling; each program is executed several times; interleavings are sampled, widened by delay injection at hook sites, never enumerated".to_string(),
         "history checkers are one-directional (an absent value is always allowed) and use stamps from one global atomic counter taken before and after each call".to_string(),
@@ -366,6 +391,7 @@ pub fn replay_file(property: &str, path: &str) -> i32 {
     };
     let result = match replay.engine.as_str() {
         "SEQ" => replay_seq(&replay),
+        "DIRECTED-F11" => Ok((0..20).find_map(|_| crate::conc::sweep_vs_reput_scenario(replay.case["delay_ms"].as_u64().unwrap_or(20)))),
         "CONC" => decode_case::<crate::conc::ConcCase>(&replay.case).map(|case| {
             // the stored failure is the observed one; try to reproduce it by re-executing
             for _ in 0..50 {
